@@ -4,7 +4,7 @@ import os
 import re
 import subprocess
 import time
-from .unit import Unit
+from .unit import Unit, parse_label, AFTER
 from .rsx import ExtractError
 
 VERIF = os.path.dirname(os.path.dirname(os.path.abspath(__file__)))
@@ -184,6 +184,16 @@ def run_unit(path, rlimit=None, seed=None, extra_args=(), quarantine=()):
     for name in u.mustfail:
         res['mustfail'].append(dict(fn=name, failed_as_required=name in mf_ok))
     missing = [n for n in u.mustfail if n not in mf_ok]
+    # residual clauses: reported only when none of the clauses they are the remainder of failed
+    failed_labels = set(fl['label'] for fl in real if fl['label'])
+    kept = []
+    for fl in real:
+        sub = [a for a in AFTER.get(fl['label'], []) if a in failed_labels and a != fl['label']]
+        if sub:
+            res.setdefault('subsumed', []).append(dict(label=fl['label'], by=sub))
+        else:
+            kept.append(fl)
+    real = kept
     res['failures'] = real
     # functions that verus says failed but for which no diagnostic was mapped
     if real:
@@ -296,10 +306,10 @@ def _failure(d, u):
             where_repo = _org_str(l.origin)
         elif l.origin[0] == 'tmpl' and where_spec is None:
             where_spec = _org_str(l.origin)
-            m = re.search(r'//:\s*(\S+)(?:\s+(\S+))?\s*$', l.text)
-            if m:
-                label = m.group(1)
-                props = m.group(2).split(',') if m.group(2) else None
+            lb_, pr_ = parse_label(l.text)
+            if lb_:
+                label = lb_
+                props = pr_
     # the function whose obligation this is: prefer the fn containing the secondary
     # "at the end of the function body"/call-site span in repo text
     for s in spans:
@@ -311,10 +321,10 @@ def _failure(d, u):
         # the generated line itself may carry a `//: label props` comment (loop invariants)
         for s in sorted(spans, key=lambda s: not s.get('is_primary')):
             if s.get('file_name', '').endswith(u.name + '.rs') and 1 <= s['line_start'] <= len(u.lines):
-                m = re.search(r'//:\s*(\S+)(?:\s+(\S+))?\s*$', u.lines[s['line_start'] - 1].text)
-                if m:
-                    label = m.group(1)
-                    props = m.group(2).split(',') if m.group(2) else props
+                lb_, pr_ = parse_label(u.lines[s['line_start'] - 1].text)
+                if lb_:
+                    label = lb_
+                    props = pr_ if pr_ else props
                     break
     if label is None:
         # a trait-level postcondition (`ensures r.nview() == Self::from_view(x)`): the obligation is
@@ -326,10 +336,10 @@ def _failure(d, u):
                 lo = max(0, k - 80)
                 while k >= lo:
                     t = u.lines[k].text
-                    m = re.search(r'//:\s*(\S+)(?:\s+(\S+))?\s*$', t)
-                    if m and u.lines[k].origin[0] == 'tmpl':
-                        label = m.group(1)
-                        props = m.group(2).split(',') if m.group(2) else None
+                    lb_, pr_ = parse_label(t)
+                    if lb_ and u.lines[k].origin[0] == 'tmpl':
+                        label = lb_
+                        props = pr_
                         break
                     if re.match(r'\s*}\s*$', t) and u.lines[k].origin[0] == 'tmpl':
                         break
